@@ -1,7 +1,235 @@
-/- Driver entry for property C11: one request payload in, one canonical response line out. -/
-import Molli.Util.Basic
-namespace Molli.Driver.C11
+/-
+Driver entry for property C11 (geometry model over exact rationals).
 
-def handle (_payload : String) : String := "err:not-implemented"
+Numbers are tokens of `Molli.Util.RatIO` (`p/q`, `p`, or `x<16 hex>` = the exact value of a float).
+Requests (first word = op):
+
+  model ops (answer `m <9 numbers>` / `c <3n numbers>` / …; compared entry-wise with numpy, tol 1e-9)
+    rotvec      a(3) b(3)                                  general branch, `err:degenerate` when 1 + a·b = 0
+    rotvecfull  <shipped|repaired> a(3) b(3) tol n rv(3)   full constructor incl. antiparallel branch
+    rotaxis     u(3) s c
+    dihedral    p1 p2 p3 p4 (3 each) l                     → `pair A B`   (`err:norm` unless |l² − |u2|²| ≤ 1e-12·|u2|²)
+    translate   n coords(3n) v(3)
+    transform   n coords(3n) R(9)
+    subedit     n coords(3n) k sel(k) R(9) t(3)            Substructure edit  p ↦ p@R + t  on rows `sel`
+    centerat    n coords(3n) k core(k)
+    rotdih      <shipped|repaired> n coords(3n) k sel(k) p2(3) u(3) sφ cφ sτ cτ
+    enstranslate2 nc na coords(3·nc·na) vs(3·nc)
+    ensrotaten    nc na coords(3·nc·na) Rs(9·nc)
+    enscenter     nc na coords(3·nc·na) k core(k)
+    align       n coords(3n) nref ref(3·nref) hasvec [vec(3)] m { k idx(k) R(9) r }×m
+                → `ok r=<r> idx=<i,j,…> c <3n numbers>` | `none`
+                (`func` is the table of what the real callback returned for each candidate index list)
+
+  spec predicates, evaluated EXACTLY on float outputs of the real code (answer `name=0|1 …`)
+    specrot     R(9) v1(3) v2(3) tol            orth det maps   (maps: v1@R ∥ v2, same sense)
+    specaxis    R(9) axis(3) l s c tol          norm orth det fix angle   (l = float norm of axis, certified)
+    rigidcheck  n before(3n) after(3n) k sel(k) tol   frame dist chir   (rows ∉ sel bit-identical; moved part rigid)
+    dihcheck    p1 p2 p3 p4 l s c tol           norm target    ((A, B) ∥ (s, c), same sense)
+-/
+import Molli.Util.RatIO
+import Molli.Model.Geom
+namespace Molli.Driver.C11
+open Molli.Util Molli.Model.Geom
+
+abbrev P := StateT (List String) Option
+
+def tok : P String := fun
+  | [] => none
+  | t :: ts => some (t, ts)
+
+def num : P Rat := do
+  let t ← tok
+  match ratOfTok? t with
+  | some r => pure r
+  | none => failure
+
+def nat : P Nat := do
+  let t ← tok
+  match t.toNat? with
+  | some n => pure n
+  | none => failure
+
+def vec : P (V3 Rat) := do
+  let x ← num; let y ← num; let z ← num
+  pure ⟨x, y, z⟩
+
+def mat : P (M3 Rat) := do
+  let a ← vec; let b ← vec; let c ← vec
+  pure ⟨a, b, c⟩
+
+def rep {β : Type} (p : P β) : Nat → P (List β)
+  | 0 => pure []
+  | n + 1 => do
+    let x ← p
+    let xs ← rep p n
+    pure (x :: xs)
+
+def variant : P Variant := do
+  let t ← tok
+  match t with
+  | "shipped" => pure .asShipped
+  | "repaired" => pure .repaired
+  | _ => failure
+
+def done : P Unit := fun
+  | [] => some ((), [])
+  | _ => none
+
+def showV (v : V3 Rat) : String := s!"{ratTok v.x} {ratTok v.y} {ratTok v.z}"
+def showM (m : M3 Rat) : String := s!"m {showV m.r1} {showV m.r2} {showV m.r3}"
+def showC (l : List (V3 Rat)) : String := "c " ++ " ".intercalate (l.map showV)
+def showE (e : List (List (V3 Rat))) : String := "e " ++ " ".intercalate (e.map (fun c => " ".intercalate (c.map showV)))
+def bit (b : Bool) : String := if b then "1" else "0"
+
+def mEntries (m : M3 Rat) : List Rat :=
+  [m.r1.x, m.r1.y, m.r1.z, m.r2.x, m.r2.y, m.r2.z, m.r3.x, m.r3.y, m.r3.z]
+
+def within (x y tol : Rat) : Bool := ratAbs (x - y) ≤ tol
+
+/-- `R Rᵀ = I` and `det R = 1` within `tol`, exactly evaluated -/
+def orthOk (r : M3 Rat) (tol : Rat) : Bool :=
+  (List.zip (mEntries (r.mul r.transpose)) (mEntries (M3.one : M3 Rat))).all (fun p => within p.1 p.2 tol)
+def detOk (r : M3 Rat) (tol : Rat) : Bool := within r.det 1 tol
+
+/-- `w ∥ v`, same sense: `|w × v|² ≤ tol²·|w|²|v|²` and `w·v > 0` -/
+def sameDir (w v : V3 Rat) (tol : Rat) : Bool :=
+  let cr := w.cross v
+  decide (cr.dot cr ≤ tol * tol * (w.dot w) * (v.dot v)) && decide (0 < w.dot v)
+
+def normOk (l : Rat) (v : V3 Rat) : Bool :=
+  decide (0 < l) && decide (ratAbs (l * l - v.dot v) ≤ (1 / 1000000000000 : Rat) * v.dot v)
+
+def chunks {β : Type} (n : Nat) (l : List β) : Nat → List (List β)
+  | 0 => []
+  | k + 1 => l.take n :: chunks n (l.drop n) k
+
+/-- all 4-subsets (as index lists into `sel`) when few, else sliding windows -/
+def quads (k : Nat) : List (Nat × Nat × Nat × Nat) :=
+  if k ≤ 9 then
+    (List.range k).flatMap fun a => (List.range k).flatMap fun b => (List.range k).flatMap fun c =>
+      (List.range k).filterMap fun d => if a < b ∧ b < c ∧ c < d then some (a, b, c, d) else none
+  else
+    (List.range (k - 3)).map (fun i => (i, i + 1, i + 2, i + 3)) ++
+    (List.range (k - 3)).map (fun i => (0, i + 1, (i + k / 2) % k, k - 1))
+
+def rigidCheck (before after : List (V3 Rat)) (sel : List Nat) (tol : Rat) : String :=
+  let n := before.length
+  let frame := after.length == n && (List.range n).all (fun i =>
+    sel.contains i || before[i]? == after[i]?)
+  let b := gather before sel
+  let a := gather after sel
+  let k := b.length
+  let z : V3 Rat := V3.zero
+  let dist := a.length == k && (List.range k).all (fun i => (List.range k).all (fun j =>
+    i ≥ j || within (dist2 (b.getD i z) (b.getD j z)) (dist2 (a.getD i z) (a.getD j z)) tol))
+  let chir := (quads k).all (fun q =>
+    let (i, j, l, m) := q
+    within (triple (b.getD i z) (b.getD j z) (b.getD l z) (b.getD m z))
+           (triple (a.getD i z) (a.getD j z) (a.getD l z) (a.getD m z)) tol)
+  s!"frame={bit frame} dist={bit dist} chir={bit chir}"
+
+structure AlignCand where
+  idx : List Nat
+  rot : M3 Rat
+  r : Rat
+
+def cand : P AlignCand := do
+  let k ← nat
+  let idx ← rep nat k
+  let rot ← mat
+  let r ← num
+  pure ⟨idx, rot, r⟩
+
+def run : String → P String
+  | "rotvec" => do
+    let a ← vec; let b ← vec; done
+    if 1 + a.dot b == 0 then pure "err:degenerate" else pure (showM (rotVec a b))
+  | "rotvecfull" => do
+    let v ← variant; let a ← vec; let b ← vec; let tol ← num; let n ← num; let rv ← vec; done
+    if n == 0 then pure "err:degenerate" else pure (showM (rotVecFull v a b tol n rv))
+  | "rotaxis" => do
+    let u ← vec; let s ← num; let c ← num; done
+    pure (showM (rotAxis u s c))
+  | "dihedral" => do
+    let p1 ← vec; let p2 ← vec; let p3 ← vec; let p4 ← vec; let l ← num; done
+    if !normOk l (p3.sub p2) then pure "err:norm" else
+      let pr := dihedralPair p1 p2 p3 p4 l
+      pure s!"pair {ratTok pr.1} {ratTok pr.2}"
+  | "translate" => do
+    let n ← nat; let cs ← rep vec n; let v ← vec; done
+    pure (showC (translate cs v))
+  | "transform" => do
+    let n ← nat; let cs ← rep vec n; let r ← mat; done
+    pure (showC (transform cs r))
+  | "subedit" => do
+    let n ← nat; let cs ← rep vec n; let k ← nat; let sel ← rep nat k; let r ← mat; let t ← vec; done
+    pure (showC (updateSel cs sel (fun p => (p.mulM r).add t)))
+  | "centerat" => do
+    let n ← nat; let cs ← rep vec n; let k ← nat; let core ← rep nat k; done
+    if (gather cs core).length == 0 then pure "err:empty-core" else pure (showC (centerAt cs core))
+  | "rotdih" => do
+    let v ← variant; let n ← nat; let cs ← rep vec n; let k ← nat; let sel ← rep nat k
+    let p2 ← vec; let u ← vec; let sp ← num; let cp ← num; let st ← num; let ct ← num; done
+    pure (showC (rotateDihedral v cs sel p2 u sp cp st ct))
+  | "enstranslate2" => do
+    let nc ← nat; let na ← nat; let cs ← rep vec (nc * na); let vs ← rep vec nc; done
+    pure (showE (ensTranslate2 (chunks na cs nc) vs))
+  | "ensrotaten" => do
+    let nc ← nat; let na ← nat; let cs ← rep vec (nc * na); let rs ← rep mat nc; done
+    pure (showE (ensRotateN (chunks na cs nc) rs))
+  | "enscenter" => do
+    let nc ← nat; let na ← nat; let cs ← rep vec (nc * na); let k ← nat; let core ← rep nat k; done
+    pure (showE (ensCenterAtCore (chunks na cs nc) core))
+  | "align" => do
+    let n ← nat; let cs ← rep vec n; let nref ← nat; let ref ← rep vec nref
+    let hasvec ← nat
+    let v ← (if hasvec == 1 then (do let x ← vec; pure (some x)) else pure none)
+    let m ← nat; let cands ← rep cand m; done
+    let centred := centerAt cs ((cands.map (·.idx)).headD [])
+    let func : List (V3 Rat) → List (V3 Rat) → M3 Rat × Rat := fun X _ =>
+      match cands.find? (fun c => gather centred c.idx == X) with
+      | some c => (c.rot, c.r)
+      | none => (M3.one, 1000000)
+    match alignMol func 100 (cands.map (·.idx)) ref v cs with
+    | none => pure "none"
+    | some (final, r, idx) =>
+      pure s!"ok r={ratTok r} idx={",".intercalate (idx.map toString)} {showC final}"
+  | "specrot" => do
+    let r ← mat; let v1 ← vec; let v2 ← vec; let tol ← num; done
+    pure s!"orth={bit (orthOk r tol)} det={bit (detOk r tol)} maps={bit (sameDir (v1.mulM r) v2 tol)}"
+  | "specaxis" => do
+    let r ← mat; let ax ← vec; let l ← num; let s ← num; let c ← num; let tol ← num; done
+    let fixRow := (ax.mulM r).sub ax
+    let fixCol := (r.mulV ax).sub ax
+    let fix := decide (fixRow.dot fixRow ≤ tol * tol * ax.dot ax) && decide (fixCol.dot fixCol ≤ tol * tol * ax.dot ax)
+    -- a vector ⊥ axis: axis × (coordinate axis least aligned with it)
+    let v := ax.cross (basis (argminAbs ax))
+    let rv := r.mulV v
+    let vv := v.dot v
+    let angle := decide (0 < vv) && within (rv.dot v) (c * vv) (tol * vv) &&
+      within (ax.dot (v.cross rv)) (s * vv * l) (tol * vv * l)
+    pure s!"norm={bit (normOk l ax)} orth={bit (orthOk r tol)} det={bit (detOk r tol)} fix={bit fix} angle={bit angle}"
+  | "rigidcheck" => do
+    let n ← nat; let b ← rep vec n; let a ← rep vec n; let k ← nat; let sel ← rep nat k; let tol ← num; done
+    pure (rigidCheck b a sel tol)
+  | "dihcheck" => do
+    let p1 ← vec; let p2 ← vec; let p3 ← vec; let p4 ← vec; let l ← num; let s ← num; let c ← num
+    let tol ← num; done
+    let pr := dihedralPair p1 p2 p3 p4 l
+    -- (A, B) ∥ (s, c), same sense, as 2-d vectors
+    let cr := pr.1 * c - pr.2 * s
+    let dt := pr.1 * s + pr.2 * c
+    let ok := decide (cr * cr ≤ tol * tol * (pr.1 * pr.1 + pr.2 * pr.2) * (s * s + c * c)) && decide (0 < dt)
+    pure s!"norm={bit (normOk l (p3.sub p2))} target={bit ok}"
+  | _ => failure
+
+def handle (payload : String) : String :=
+  match words payload with
+  | [] => "err:bad-request"
+  | op :: rest =>
+    match (run op).run rest with
+    | some (out, _) => out
+    | none => "err:bad-request"
 
 end Molli.Driver.C11
